@@ -121,7 +121,7 @@ def scenario(ctx):
             for d in cs.all_ifaces():
                 for pn, ps, acc, em in d.props:
                     ref, pyv = gen.prop_value(ds, ps)
-                    setattr(o, cs.prop_attrs[(d.name, pn)], pyv)
+                    setattr(o, cs.attr(d.name, pn), pyv)
                     vals[(d.name, pn)] = (ps, ref, acc)
             return o
         o = rig.call(mk)
